@@ -71,15 +71,21 @@ class sink(Sink):
             if metadata:
                 # hold the references until the awaitable has finished
                 self._retain_refs(metadata)
-                result = gen.convert_yielded(result)
-
-                def release(future):
-                    if not future.cancelled() and future.exception() is None:
-                        self._release_refs(metadata)
-                result.add_done_callback(release)
+                if gen.is_future(result):
+                    def release(future):
+                        if not future.cancelled() and future.exception() is None:
+                            self._release_refs(metadata)
+                    result.add_done_callback(release)
+                else:
+                    # leave scheduling of a coroutine to the caller, as before
+                    result = self._release_when_done(result, metadata)
             return result
         else:
             return []
+
+    async def _release_when_done(self, awaitable, metadata):
+        await awaitable
+        self._release_refs(metadata)
 
 
 @Stream.register_api()
